@@ -308,7 +308,7 @@ class FnSpec:
     def __init__(self, file, qualname, args, prop, mode='int', requires=(), ensures=(), rejects=(),
                  frame=None, loops=None, callees=None, ghosts=None, ignore=(), name=None, check_fits=False,
                  allow_raise=(), hints=None, pre_hints=(), slice=None, live_in=None, post_hints=(), inline=(),
-                 name_values=(), blocks=()):
+                 name_values=(), blocks=(), opaque_mul=False):
         self.file, self.qualname, self.args, self.prop, self.mode = file, qualname, args, prop, mode
         self.requires, self.ensures, self.rejects = list(requires), list(ensures), list(rejects)
         self.frame = frame            # list of array arg names that may be written (None = no frame check)
@@ -327,6 +327,7 @@ class FnSpec:
         self.inline = list(inline)
         self.name_values = set(name_values)
         self.blocks = list(blocks)
+        self.opaque_mul = opaque_mul    # abstraction: real products / quotients of non-constants are uninterpreted (sound: proves more general fact)
 
 
 # --------------------------------------------------------------------------------------------------
@@ -1000,6 +1001,8 @@ class Engine:
             a, b = self.toreal(a), self.toreal(b)
             if not self.specmode:
                 self.oblige(st, 'divzero', b.t != 0, n)
+            if getattr(self.spec, 'opaque_mul', False) and not z3.is_rational_value(simp(b.t)):
+                return SV(RDIV(simp(a.t), simp(b.t)), 'real')
             return SV(a.t / b.t, 'real')
         a, b = self.unify2(a, b)
         if t is ast.Add:
@@ -1007,6 +1010,10 @@ class Engine:
         if t is ast.Sub:
             return SV(a.t - b.t, a.ty)
         if t is ast.Mult:
+            if getattr(self.spec, 'opaque_mul', False) and a.ty == 'real':
+                # products of two non-constant reals as an uninterpreted commutative function: the contract and the code build
+                # the same products, so equalities follow by congruence and the solver never enters non-linear arithmetic
+                return SV(self.mul_terms(a.t, b.t), 'real')
             return SV(a.t * b.t, a.ty)
         if t in (ast.FloorDiv, ast.Mod):
             if a.ty == 'int':
@@ -1025,6 +1032,15 @@ class Engine:
                     raise Unsupported('signed bit-vector floor division')
                 return SV(z3.UDiv(a.t, b.t) if t is ast.FloorDiv else z3.URem(a.t, b.t), a.ty)
         raise Unsupported('binop ' + t.__name__ + ' on ' + a.ty)
+
+    def mul_terms(self, x, y):
+        """product of two real z3 terms the way the interpreter builds it (for ghost definitions written directly in z3)"""
+        x, y = simp(x), simp(y)
+        if getattr(self.spec, 'opaque_mul', False) and not z3.is_rational_value(x) and not z3.is_rational_value(y):
+            # operands stay in source order (an order chosen from the terms would not survive the substitution of bound variables);
+            # commutativity is available to the solver as an axiom (Engine.verify adds it for opaque_mul contracts)
+            return RMUL(x, y)
+        return x * y
 
     def concat_bytes(self, st, a, b):
         """bytes + bytes-like: a new immutable byte string (elements are raw byte values)"""
@@ -2133,6 +2149,9 @@ class Engine:
         entry = St(dict(st.env), dict(st.heap), st.pc)
         if spec.ghosts is not None:
             spec.ghosts(GhostCtx(self, entry))
+        if getattr(spec, 'opaque_mul', False):
+            cx, cy = z3.Reals('cx cy')
+            self.axioms.append(z3.ForAll([cx, cy], RMUL(cx, cy) == RMUL(cy, cx), patterns=[RMUL(cx, cy)]))
         st.pc.extend(self.axioms)
         st.env['__old__'] = entry
         for r in spec.requires:
@@ -2265,6 +2284,8 @@ class _Poison:
 POISON = _Poison()
 
 POW = z3.Function('pow', z3.RealSort(), z3.RealSort(), z3.RealSort())
+RMUL = z3.Function('rmul', z3.RealSort(), z3.RealSort(), z3.RealSort())      # FnSpec(opaque_mul=True): products / quotients of non-constant reals
+RDIV = z3.Function('rdiv', z3.RealSort(), z3.RealSort(), z3.RealSort())
 
 NP_DTYPES = {'float32', 'float64', 'int8', 'int16', 'int32', 'int64', 'uint8', 'uint16', 'uint32', 'uint64',
              'bool_', 'bool8', 'complex64', 'complex128'}
